@@ -167,6 +167,7 @@ def run(chk):
     clones.rule_clones(chk, 'N1', floor=100)
     clones.rule_const_width(chk, 'N2', floor=100)
     clones.rule_tables(chk, 'N5', None, floor=1000)
+    clones.rule_insert_ladders(chk, 'N6', None, floor=5000)
     from . import twins
     twins.rule_twin_arms(chk, P, 'X2', floor=20)
     twins.rule_common_flag(chk, P, 'Z1', floor=6)
